@@ -72,6 +72,19 @@ TBool == [type |-> "boolean"]
 TNum  == [type |-> "number"]
 S9 == [type |-> "object", required |-> <<>>, pk |-> <<"b", "f", "n">>, ps |-> <<TBool, TNum, TInt>>]
 
+(* S10: arrays of every primitive type (the properties a per-property Encoding Object of a urlencoded body matters for) *)
+S10 == [type |-> "object", required |-> <<>>, pk |-> <<"l", "lb", "lf", "ls">>,
+        ps |-> <<[type |-> "array", items |-> TInt], [type |-> "array", items |-> TBool], [type |-> "array", items |-> TNum],
+                 [type |-> "array", items |-> [type |-> "string", enum |-> <<Str(<<"a">>), Str(<<"b">>), Str(<<"c">>)>>]]>>]
+
+(* The Encoding Object of a property of a urlencoded body gives style and / or explode, each possibly ABSENT ("none").        *)
+(* OpenAPI 3.0.3, Encoding Object: style defaults to form; explode defaults to true when the style is form, to false for every *)
+(* other style.  An exploded array is one field per item; otherwise ONE field whose text joins the items by the style's        *)
+(* delimiter (form ","  spaceDelimited " "  pipeDelimited "|").  This is how a body ENCODES an array under an encoding.        *)
+EffStyle(style) == IF style = "none" THEN "form" ELSE style
+EffExplode(style, explode) == IF explode = "none" THEN EffStyle(style) = "form" ELSE explode = "true"
+StyleDelim(style) == CASE EffStyle(style) = "spaceDelimited" -> " " [] EffStyle(style) = "pipeDelimited" -> "|" [] OTHER -> ","
+
 (* Schemas of a text/plain body (and of a multipart part decoded as plain text).  The value a plain-text body encodes is *)
 (* the string it carries, whatever the schema says -- in particular when the schema has NO "type" keyword (T1..T5): a   *)
 (* bare enum, length bounds, a pattern, nullable, a composition.  T6 (type: integer): the text is still a string, so    *)
@@ -105,7 +118,7 @@ Wrap(s, w) ==
 
 BaseSchemaOf(c) == IF c.family \in {"text", "octet", "zip", "csv"} THEN TextSchemaOf(c.schema) ELSE IF c.schema = "SN" THEN SN
                ELSE CASE c.schema = "S1" -> S1 [] c.schema = "S3" -> S3 [] c.schema = "S4" -> S4 [] c.schema = "S4a" -> S4a
-                      [] c.schema = "S5" -> S5 [] c.schema = "S6" -> S6 [] c.schema = "S7" -> S7 [] c.schema = "S8" -> S8 [] c.schema = "S9" -> S9 [] OTHER -> S2
+                      [] c.schema = "S5" -> S5 [] c.schema = "S6" -> S6 [] c.schema = "S7" -> S7 [] c.schema = "S8" -> S8 [] c.schema = "S9" -> S9 [] c.schema = "S10" -> S10 [] OTHER -> S2
 SchemaOf(c) == IF "wrap" \in DOMAIN c THEN Wrap(BaseSchemaOf(c), c.wrap) ELSE BaseSchemaOf(c)
 
 (* the media type a decoder family is declared under and sent as *)
